@@ -26,7 +26,7 @@ VARIABLE lw          \* <<>> or a law instance [ta, tb, x, y]
 Narrow == {"c8", "u8", "i16", "u16"}
 Lo(t) == CASE t = "c8" -> -128 [] t = "i16" -> -32768 [] t = "i32" -> -2147483647 - 1 [] OTHER -> 0
 Hi(t) == CASE t = "c8" -> 127 [] t = "u8" -> 255 [] t = "i16" -> 32767 [] t = "u16" -> 65535 [] t = "i32" -> 2147483647
-\* the first 5 values of every list are the quick-tier set (NV = 5), all 13 the thorough one
+\* the first 7 values of every list are the quick-tier set (NV = 7), all 13 the thorough one
 Ints(t) == CASE t = "c8" -> <<0, 1, -1, 127, -128, 7, 100, 2, 126, -2, -7, -127, 64>>
              [] t = "u8" -> <<0, 1, 255, 128, 127, 7, 31, 2, 100, 129, 200, 254, 32>>
              [] t = "i16" -> <<0, 1, -1, 32767, -32768, 7, 255, 2, 256, 32766, -2, -32767, 181>>
